@@ -2660,10 +2660,10 @@ char EVUTIL_TOUPPER_(char c)
 int
 evutil_ascii_strcasecmp(const char *s1, const char *s2)
 {
-	char c1, c2;
+	unsigned char c1, c2;
 	while (1) {
-		c1 = EVUTIL_TOLOWER_(*s1++);
-		c2 = EVUTIL_TOLOWER_(*s2++);
+		c1 = (unsigned char)EVUTIL_TOLOWER_(*s1++);
+		c2 = (unsigned char)EVUTIL_TOLOWER_(*s2++);
 		if (c1 < c2)
 			return -1;
 		else if (c1 > c2)
@@ -2674,10 +2674,10 @@ evutil_ascii_strcasecmp(const char *s1, const char *s2)
 }
 int evutil_ascii_strncasecmp(const char *s1, const char *s2, size_t n)
 {
-	char c1, c2;
+	unsigned char c1, c2;
 	while (n--) {
-		c1 = EVUTIL_TOLOWER_(*s1++);
-		c2 = EVUTIL_TOLOWER_(*s2++);
+		c1 = (unsigned char)EVUTIL_TOLOWER_(*s1++);
+		c2 = (unsigned char)EVUTIL_TOLOWER_(*s2++);
 		if (c1 < c2)
 			return -1;
 		else if (c1 > c2)
